@@ -50,14 +50,14 @@ JENV = {"_JAVA_OPTIONS": "-XX:ParallelGCThreads=2"}
 
 def configs(quick):
     """(label, constants, GreedySets, LazyModes) of the exhaustive + replay-generation runs"""
-    base = dict(ND=2, NS=2, MaxF=2, MaxEnv=2, MaxCol=2, MaxPause=0, MaxCkpt=0, WrongGroup=True, Choice="both")
+    base = dict(ND=2, NS=2, MaxF=2, MaxEnv=2, MaxCol=2, MaxPause=0, MaxCkpt=0, MaxCfg=0, WrongGroup=True, Choice="both")
     if quick:
         return [("2 streams, 0..2 frames x 2, 2 collects", dict(base), "{{}}", "{FALSE}"),
-                ("1 stream, 0..1 frames x 2, 2 collects, pause + checkpoint", dict(base, NS=1, MaxF=1, MaxPause=1, MaxCkpt=1), "{{}}", "{FALSE}"),
+                ("1 stream, 0..1 frames x 2, 2 collects, pause + checkpoint + configure", dict(base, NS=1, MaxF=1, MaxPause=1, MaxCkpt=1, MaxCfg=1), "{{}}", "{FALSE}"),
                 ("devices ignoring the index, lazy resources", dict(base, NS=1, MaxEnv=1), "{{1}, {2}}", "{TRUE}")]
     return [("1 stream, 0..3 frames x 3, 3 collects", dict(base, NS=1, MaxF=3, MaxEnv=3, MaxCol=3), "{{}}", "{FALSE}"),
             ("2 streams, 0..2 frames x 2, 3 collects", dict(base, MaxCol=3), "{{}}", "{FALSE}"),
-            ("2 streams, 0..2 frames x 2, 2 collects, pause + checkpoint", dict(base, MaxPause=1, MaxCkpt=1), "{{}}", "{FALSE}"),
+            ("2 streams, 0..2 frames x 2, 2 collects, pause + checkpoint + configure", dict(base, MaxPause=1, MaxCkpt=1, MaxCfg=1), "{{}}", "{FALSE}"),
             ("1 stream, 0..2 frames x 2, 3 collects, pause + checkpoint", dict(base, NS=1, MaxCol=3, MaxPause=1, MaxCkpt=1), "{{}}", "{FALSE}"),
             ("3 detectors, 2 streams, 0..1 frames x 2, 2 collects", dict(base, ND=3, MaxF=1), "{{}}", "{FALSE}"),
             ("devices ignoring the index, lazy / eager resources", dict(base, NS=1), "{{1}, {2}, {1, 2}}", "{TRUE, FALSE}")]
@@ -246,9 +246,11 @@ def random_input(rng, nd=3, ns=3):
             if careful:
                 ops.append({"op": "checkpoint", "s": "", "ds": [], "f": []})
                 since_ckpt = False
-        elif r < 0.87:
+        elif r < 0.84:
             ops.append({"op": "checkpoint", "s": "", "ds": [], "f": []})
             since_ckpt = False
+        elif r < 0.87:
+            ops.append({"op": "configure", "s": "", "ds": [rng.choice(declared)], "f": []})     # a new descriptor for its stream
         elif r < 0.985:
             ops.append({"op": "pause", "s": "", "ds": [], "f": []})
         else:
